@@ -4,7 +4,7 @@ from pv import common, gen, orch
 RULE = ("orchestrated thread-mode runs (run_local_thread_dcop + deploy_computations + run) of dpop, dsa, mgm, maxsum and "
         "adsa (periodic actions) on generated DCOPs of 3-6 variables with 2-5 agents and random mappings; half of the non-DPOP runs "
         "with replication (dist_ucs_hostingcosts, k=1..2) before run(), half of the non-terminating ones with a pause / "
-        "resume request while running, a third with periodic metrics collection, a tenth with one agent stuck in a callback for 6 s when the run timeout fires (longer than the orchestrator's 5 s stop timeout); perturbation: switch interval 1e-5, "
+        "resume request while running, a third with periodic metrics collection, half of the replicated dsa / mgm runs lose 1-2 agents while running (repair), a tenth with one agent stuck in a callback for 6 s when the run timeout fires (longer than the orchestrator's 5 s stop timeout); perturbation: switch interval 1e-5, "
         "random sleeps around Messaging.post_msg / next_msg and inside every monitored callback (thorough: sys.monitoring "
         "LINE yield injection on half of the runs); monitor: wrappers installed from the harness on start / on_message / "
         "pause of every computation given to Agent.add_computation (and each agent's discovery computation), on callables "
@@ -26,6 +26,13 @@ def gen_run(rng, i):
             "period": rng.random() < 0.33,
             # fault: one agent is stuck in a callback for longer than the orchestrator's 5 s stop timeout when the run timeout fires
             "slow_stop": algo in ("dsa", "mgm", "maxsum") and i % 10 in (1, 7)}
+    # resilient runs: half of the replicated dsa / mgm runs lose one or two agents while running (repair pipeline:
+    # repair computations, migrated computations started and paused, replication callbacks on agent removal)
+    opts["removal"] = []
+    if algo in ("dsa", "mgm") and not opts["slow_stop"] and rng.random() < 0.7:
+        opts["replication"] = True
+        opts["removal"] = rng.sample(["a%d" % j for j in range(na)], 1 if na <= 2 else rng.randint(1, min(2, opts["k"])))
+        opts["pause_resume"] = False
     params = {}
     if algo == "adsa":
         params = {"period": 0.05}
@@ -64,11 +71,11 @@ def analyse(mon):
 
 def check_run(algo, case, na, opts, params, seed, lines):
     mon = orch.CallbackMonitor()
-    r = orch.run_orchestrated(case, algo, params, na, "random", seed, timeout=20.0 if algo == "dpop" else 0.8, lines=lines,
+    r = orch.run_orchestrated(case, algo, params, na, "random", seed, timeout=20.0 if algo == "dpop" else (2.5 if opts.get("removal") else 0.8), lines=lines,
                               monitor=mon, replication="dist_ucs_hostingcosts" if opts["replication"] else None,
                               k_target=opts["k"] if opts["replication"] else None, pause_resume=opts["pause_resume"],
                               collect_moment="period" if opts["period"] else "value_change", period=0.05 if opts["period"] else None,
-                              stall=(0.7, 6.0) if opts.get("slow_stop") else None)
+                              stall=(0.7, 6.0) if opts.get("slow_stop") else None, removal=opts.get("removal") or None)
     P, rich, kinds = analyse(mon)
     if r["errors"]:
         P.append(("harness:exception", r["errors"][0]))
@@ -104,6 +111,8 @@ def worker(job):
         R.bump("algorithms", algo)
         if r.get("stalled_thread"):
             R.count("runs_with_agent_stuck_at_stop")
+        if r.get("removal_injected_at") is not None:
+            R.count("runs_with_agent_removal_and_repair")
         R.bump("statuses", "%s:%s" % (algo, r.get("status")))
         seen = set()
         for k, m in P:
@@ -119,8 +128,8 @@ def main(chk, tier, seed):
     chk.assumptions = ["discovery callbacks are attributed to a computation when they are bound methods of a hosted computation or "
                        "are subscribed from inside a monitored callback; other subscriptions (e.g. Messaging's retry callback) are counted, not judged",
                        "thread schedules are sampled, not enumerated"]
-    n = 40 if tier == "quick" else 800
-    common.run_chunked(chk, "c21", n, nchunks=20 if tier == "quick" else 80, job_extra={"lines": tier == "thorough"}, timeout=600 if tier == "quick" else 3000)
+    n = 60 if tier == "quick" else 800
+    common.run_chunked(chk, "c21", n, nchunks=30 if tier == "quick" else 80, job_extra={"lines": tier == "thorough"}, timeout=600 if tier == "quick" else 3000)
     kinds = chk.extra.get("records_by_kind", {})
     for k in ("start", "message", "pause", "periodic", "discovery_cb"):
         chk.inconclusive_if(kinds.get(k, 0) < 5 and not chk.violations, "callback kind %r observed only %d times" % (k, kinds.get(k, 0)))
